@@ -1155,6 +1155,18 @@ def scalar_dim_expansions(f: FunctionInfo):
             q = [is_quot(x, T) for x in r]
             if (s[0] and q[1]) or (s[1] and q[0]):
                 out.append((n, r, bool(s[0] and q[1])))
+        # 2x2 form: row 0 describes the ROW dimensions (numerator = row total, index 0 of the size pair), row 1 the column dimensions
+        if len(rows) == 2 and all(len(r) == 2 for r in rows):
+            tot = []
+            for r in rows:
+                qe = [x for x in r if is_quot(x, T)]
+                e = _strip_wrap(qe[0]) if qe else None
+                if isinstance(e, ast.BinOp) and isinstance(e.left, ast.Subscript) and isinstance(e.left.slice, ast.Constant) and isinstance(e.left.value, ast.Name):
+                    tot.append((e.left.value.id, e.left.slice.value))
+                else:
+                    tot.append(None)
+            if None not in tot and tot[0][0] == tot[1][0]:
+                out.append((n, ("rowcol", tot), tot[0][1] == 0 and tot[1][1] == 1))
     return out
 
 
@@ -1165,6 +1177,12 @@ def r_scalar_dim_expand(ctx, f: FunctionInfo, rule="R-KIND", chain=None):
     per: dict[str, int] = {}
     for n, r, ok in sites:
         T = n.targets[0].id
+        if isinstance(r, tuple) and r and r[0] == "rowcol":
+            ctx.ob(rule, f, f"2x2 expansion of scalar `{T}`: row 0 divides the row total, row 1 the column total", ok,
+                   f"rows use {r[1][0][0]}[0] and {r[1][0][0]}[1]" if ok else
+                   f"`{unparse(n)[:80]}`: the quotients divide {r[1][0][0]}[{r[1][0][1]}] and {r[1][1][0]}[{r[1][1][1]}] -- the row table must come from the number of rows and the "
+                   "column table from the number of columns (they differ for rectangular operators)", n, chain=chain)
+            continue
         per[T] = per.get(T, 0) + 1
         key = f"scalar `{T}` expands to [{T}, total/{T}]" + (f" #{per[T]}" if per[T] > 1 else "")
         ctx.ob(rule, f, key, ok, f"`{unparse(n)[:70]}`" if ok else
